@@ -229,6 +229,34 @@ PROPERTIES = {
                     'that `.call(req).await` on the wrapped tower service behaves as the assumed call_and_await (one call, its reply)'],
         assumptions=['StatusCode::is_success() is true exactly for Success (kani_wire::status_closed_set: only 200 lies in 200..=299)'],
     ),
+    'C18': dict(
+        units=['limits', 'enum_limits'],
+        canaries=['limits'],
+        scope='THE LIMITER\'S OWN CODE UNDER EVERY SCHEDULE OF A BOUNDED SIZE; tokio\'s semaphore is a model. Proved (Verus, unit limits): every service built by one InflightLimitLayer shares the layer\'s one per-peer table, '
+              'with the layer\'s maximum and wait mode, around exactly the given service; the constructors keep maximum and mode. BOUNDED (unit enum_limits): the real `call` (its async block, boxed as it is), the real '
+              'constructors and `layer`, compiled natively against a model of tokio::sync::Semaphore and DashMap, driven by a hand scheduler: limit 1 or 2, Block or ReturnError, 3 requests from peer 1 / peer 2 / without identity '
+              'through a service, its clone or a second service of the same layer, EVERY schedule of 6 (thorough: 7) actions out of {start, poll, let the wrapped service finish a request, drop a request}: never more than `limit` '
+              'requests of a peer inside the wrapped service; below the limit a polled request gets in whatever other peers do; at the limit it waits (Block) or is refused with TooManyRequests without reaching the service '
+              '(ReturnError); no identity -> InternalServerError; after everything finished, failed or was dropped each peer has exactly `limit` slots again.',
+        unverified=['tokio::sync::Semaphore itself under real concurrency (threads, wake-ups, fairness): a sequential model with the same API; the bound under truly parallel polls is tokio\'s guarantee',
+                    'DashMap under concurrent access (a mutex around a list in the model)',
+                    'more than 3 requests, 2 peers, limits above 2, schedules longer than the bound',
+                    'that `call` holds the permit until the wrapped future ends is observed by execution of the real text under every schedule, not proved (Verus cannot observe drop points)'],
+        assumptions=['the executable models of tokio::sync::Semaphore and DashMap in unit enum_limits (stated in its docstring)'],
+    ),
+    'C12': dict(
+        units=['wire', 'crypto'],
+        canaries=['streams'],
+        extra=[validate.abandoned_rpcs],
+        scope='TWO STRUCTURAL FACTS PROVED, THE REST ONLY EXECUTED. Proved (Verus): in BiStreamRequestHandler::do_handle the service\'s answer is raced against the remote stopping the stream, and when the stop '
+              'comes first the exchange ends at once with an error, nothing written, the service\'s future dropped with the frame that owns it (obligation placed in that arm of the select, by shape); a send half dropped '
+              'before it was finished is RESET (SendStream::drop), which is how the remote learns that a caller went away. Executed on real networks (abandoned_rpcs): a remote handler that started is dropped within '
+              'milliseconds when the caller drops the future or times out; a future dropped before it is polled starts nothing; 40 abandoned RPCs against 4 concurrent streams leave later RPCs and an RPC in flight untouched.',
+        unverified=['WHEN the remote notices (STOP_SENDING / RESET_STREAM delivery, quinn\'s flow control and stream-credit return): only executed, with a margin of a second',
+                    'that dropping the caller\'s future drops both stream halves (Rust drop order of an async frame: not observable by either verifier)',
+                    'abandonment while the response is being written; datagram loss during the reset'],
+        assumptions=['quinn: dropping a RecvStream sends STOP_SENDING and the peer\'s SendStream::stopped() then resolves'],
+    ),
     'C02': dict(
         units=['wire', 'kani_wire', 'crypto', 'timeout'],
         canaries=['wire', 'streams', 'crypto', 'timeout'],
@@ -250,7 +278,5 @@ NOTES = ('Every check re-extracts the functions it depends on from /repo\'s work
 PENDING = 'within reach of the technique (DESIGN.md section 5) but its unit is not built yet; not claimed until it runs green with guards'
 NOT_APPLICABLE = {
      'C08': 'shutdown: task joins, channel closure, socket release and runtime teardown at every point in time; no function-level contract expresses it and neither verifier models tokio tasks or Drop ordering (DESIGN.md section 6)',
-    'C12': 'cancellation: when a remote handler is dropped relative to a caller\'s cancellation and QUIC stream credit return are scheduling + quinn flow control; nothing in reach decides a sentence of it (section 6)',
-    'C18': 'in-flight limit: the bound is the tokio semaphore under concurrency and implicit-Drop timing of permits; Kani has no threads, Verus cannot observe drop points (section 6)',
     'C19': 'rate limit: the admitted-count bound is governor\'s GCRA over real time; only one sequential clause is in reach, which would leave the property undecided (section 6)',
 }
